@@ -199,7 +199,7 @@ SPECS = {
             ]},
     "C20": {"machine": "c20", "level": "exploration", "plan": plan_C20, "evidence": evidence_C20, "post": post_C20,
             "assumptions": [
-                "code outside yarl's .py files (stdlib, idna, multidict, propcache, functools.lru_cache C wrapper, the compiled quoter) executes as one atomic step, which is what the GIL guarantees for the C parts",
+                "code outside yarl's .py files (stdlib, idna, multidict, propcache, functools.lru_cache C wrapper, the compiled quoter) executes as one atomic step, which is what the GIL guarantees for the C parts; exception: instance-level Python methods of caller-supplied objects that are called back during a yarl call (Enum.__str__, enum.property, UserDict/ChainMap/Mapping mixins and views) are pre-emption points",
                 "a GIL release / re-acquisition inside the compiled quoter is a scheduler pre-emption point: the staged _quoting_c is compiled with sim/gilshim.h, which routes PyEval_SaveThread/RestoreThread through the scheduler (the shipped quoter contains none; the generated C is also scanned and the count recorded)",
                 "free-threaded builds are out of scope (CPython 3.12.1 has a GIL)",
                 "schedules are sampled, not enumerated",
